@@ -212,7 +212,9 @@ def build_input(seed: int, opts: dict):
     case = gen_ref.Case(gen_ref.work_dir('cv'))
     with gen_ref.quiet():
         gen_ref.make_reference(case, seed, 1, sec_near_start=opts.get('sec_near_start', 0.25),
-                               context=opts.get('context', 0.3))
+                               context=opts.get('context', 0.3),
+                               **({'sec_lys': opts['sec_lys']} if 'sec_lys' in opts else {}),
+                               start_context=opts.get('start_context', 0.5))
         genome, anno, _ = gen_ref.load_reference(case)
         recs = []
         if opts.get('coding_only') and not any(m.is_protein_coding for m in anno.transcripts.values()):
@@ -363,6 +365,8 @@ def cv_worker(job):
             out['stats']['planted_cleavage_context_snv'] = 1
         if case.meta.get('junction_mnv'):
             out['stats']['junction_snv_pair_with_exon_deletion'] = 1
+        if case.meta.get('planted_start_context'):
+            out['stats']['planted_start_context'] = 1
         if any(isinstance(v[5], tuple) for v in tx['vars']):
             out['stats']['with_nested_in_splicing_insertion'] = 1
         out['stats'][f'enzyme_{kw["cleavage_rule"]}'] = 1
